@@ -5,40 +5,88 @@ import Props.C11
 /-!
 # C02 — every successful quorum write shares a replica with every successful quorum read
 
-For a fixed ring content `d`, key and `now`: `W = Ring.Get(key, Write)` (C01's model) and
-`R = Ring.GetReplicationSetForOperation(Read)` (`C02.getAll`). `writeOk A W`, `readOkFlat B R`,
-`readOkZones Zs R` are the success criteria of the executors (DoBatch: `len − MaxErrors` acks;
-defaultResultTracker: `len − MaxErrors` answers; zoneAwareResultTracker: all instances of
-`zones − MaxUnavailableZones` zones).
+For a fixed ring content `d` and key: `W = Ring.Get(key, opW)` at clock `now` (C01's model) and
+`R = Ring.GetReplicationSetForOperation(opR)` at clock `now'` (`C02.getAll`) — the two lookups read the
+clock independently, `now` and `now'` are unrelated. `writeOk A W`, `readOkFlat B R`, `readOkZones Zs R`
+are the success criteria of the executors (DoBatch: `len − MaxErrors` acks; defaultResultTracker:
+`len − MaxErrors` answers; zoneAwareResultTracker: all instances of `zones − MaxUnavailableZones` zones).
 
-Both theorems hold for EVERY token circle handed to the two lookups (`toks`, `toks'` are universally
-quantified and need not even agree): they use only that the walk returns registered instances and, when
-zone-aware, non-extending instances in pairwise distinct zones. In particular they are not affected by
-the C01 finding about token 2^32-1, and they need no well-formedness of the descriptor.
+Scope of the statements.
+* operations: any read operation `opR`; the flat theorem any `opW`; the zone theorems any `NonExtending opW`
+  (`Write`, `WriteNoExtend`, `Reporting`: `nonExtending_builtin`). The property's case is `Write` × `Read`.
+* token circles: `toks`, `toks'` are universally quantified and need not agree.
+* descriptor: `quorum_intersect_*` are stated for every LIST of instance records. A Go `map[string]InstanceDesc`
+  has pairwise distinct ids by construction, so only lists with distinct ids are ring contents; for those,
+  records and instances coincide. On a list with a repeated id two records of one id would count as two
+  acknowledgements (`getAll_dup_witness`) — that part of the generality says nothing about dskit. The
+  statements about real rings are the `_wf` theorems below (hypothesis `WFRing d`); they are the headline.
+* zone-aware case: every instance must carry a zone. This is NECESSARY: `intersect_needs_zones_set`.
 -/
 namespace PC02
 open Common Ring C01 C02
 
+/-- witness ring of `intersect_needs_zones_set`: two instances without a zone -/
+def nz3 : Desc := [ { id := "a", tokens := [10], zone := "z1" }, { id := "b", tokens := [20] }, { id := "c", tokens := [30] } ]
+
+/-- `Write`, `WriteNoExtend` and `Reporting` are write-type operations in the sense of `NonExtending`;
+`Read` is not (it accepts PENDING and extends on it). -/
+theorem nonExtending_builtin :
+    NonExtending opWrite ∧ NonExtending opWriteNoExtend ∧ NonExtending opReporting ∧ ¬ NonExtending opRead := by
+  refine ⟨PfC02.nonExtending_builtin.1, PfC02.nonExtending_builtin.2.1, PfC02.nonExtending_builtin.2.2, ?_⟩
+  intro h; exact absurd (h .PENDING (by decide)) (by decide)
+
 /-- Zone-awareness off: any acknowledging set of a successful quorum write of `key` and any answering
-set of a successful ring-wide quorum read have an instance in common — all rings, keys, RF, states and
-heartbeat ages. (`|A| ≥ RF/2+1`, `|B| ≥ max(N,RF) − RF/2`, both inside the `N` registered instances.) -/
-theorem quorum_intersect_flat (cfg : Cfg) (d : Desc) (toks toks' : List Nat) (key : Nat) (now : Int)
-    (W : RSet) (R : RSetAll) (A B : List Inst) (hza : cfg.zoneAware = false)
-    (hW : get cfg d toks key opWrite now = .ok W) (hR : getAll cfg d toks' opRead now = .ok R)
+set of a successful ring-wide quorum read have an instance in common — all rings, keys, RF, states,
+heartbeat ages, operations, and independent clocks for the two lookups (a replica whose heartbeat
+expires between the write and the read is covered). Pure counting: `|A| ≥ RF/2+1`,
+`|B| ≥ max(N,RF) − RF/2`, both inside the `N` registered instances. -/
+theorem quorum_intersect_flat (cfg : Cfg) (d : Desc) (toks toks' : List Nat) (key : Nat) (now now' : Int)
+    (opW opR : Op) (W : RSet) (R : RSetAll) (A B : List Inst) (hza : cfg.zoneAware = false)
+    (hW : get cfg d toks key opW now = .ok W) (hR : getAll cfg d toks' opR now' = .ok R)
     (hA : writeOk A W) (hB : readOkFlat B R) : ∃ i, i ∈ A ∧ i ∈ B :=
-  PfC02.quorum_intersect_flat cfg d toks toks' key now W R A B hza hW hR hA hB
+  PfC02.quorum_intersect_flat cfg d toks toks' key now now' opW opR W R A B hza hW hR hA hB
 
 /-- Zone-awareness on, every instance carrying a zone: some acknowledging replica belongs to the read
 replication set and lies in one of the zones that answered completely — for any number of zones (fewer,
-equal or more than RF). (Acks lie in ≥ RF/2+1 distinct zones; at most min(zones,RF)/2 zones are not
-covered by the read.) -/
-theorem quorum_intersect_zones (cfg : Cfg) (d : Desc) (toks toks' : List Nat) (key : Nat) (now : Int)
+equal or more than RF), independent clocks. (Acks lie in ≥ RF/2+1 distinct zones; at most
+min(zones,RF)/2 zones are not covered by the read; a zone the read covers returned ALL its registered
+instances, healthy at the read's own clock.) -/
+theorem quorum_intersect_zones (cfg : Cfg) (d : Desc) (toks toks' : List Nat) (key : Nat) (now now' : Int)
+    (opW opR : Op) (hne : NonExtending opW)
     (W : RSet) (R : RSetAll) (A : List Inst) (Zs : List String) (hza : cfg.zoneAware = true)
     (hz : ∀ i ∈ d, i.zone ≠ "")
-    (hW : get cfg d toks key opWrite now = .ok W) (hR : getAll cfg d toks' opRead now = .ok R)
+    (hW : get cfg d toks key opW now = .ok W) (hR : getAll cfg d toks' opR now' = .ok R)
     (hA : writeOk A W) (hZ : readOkZones Zs R) :
     ∃ i, i ∈ A ∧ i ∈ R.instances ∧ i.zone ∈ Zs :=
-  PfC02.quorum_intersect_zones cfg d toks toks' key now W R A Zs hza hz hW hR hA hZ
+  PfC02.quorum_intersect_zones cfg d toks toks' key now now' opW opR hne W R A Zs hza hz hW hR hA hZ
+
+/-- Zone-aware read set executed by the PLAIN tracker: `ReplicationSet.Do` picks `zoneAwareResultTracker`
+only when `MaxUnavailableZones > 0`; a zone-aware set whose slack is used up (or with ≤ 1 zone) runs on
+`defaultResultTracker` with `MaxErrors = 0`, i.e. the success criterion is `readOkFlat`. -/
+theorem quorum_intersect_zones_all (cfg : Cfg) (d : Desc) (toks toks' : List Nat) (key : Nat) (now now' : Int)
+    (opW opR : Op) (hne : NonExtending opW)
+    (W : RSet) (R : RSetAll) (A B : List Inst) (hza : cfg.zoneAware = true)
+    (hz : ∀ i ∈ d, i.zone ≠ "")
+    (hW : get cfg d toks key opW now = .ok W) (hR : getAll cfg d toks' opR now' = .ok R)
+    (hA : writeOk A W) (hB : readOkFlat B R) : ∃ i, i ∈ A ∧ i ∈ B :=
+  PfC02.quorum_intersect_zones_all cfg d toks toks' key now now' opW opR hne W R A B hza hz hW hR hA hB
+
+/-- The hypothesis "every instance carries a zone" of the zone-aware theorems is necessary — and the ring
+client does not enforce it (zones come from the KV store): zone-aware, RF 3, `{a: "z1", b: "", c: ""}`.
+The write of key 5 succeeds on {a,b,c} tolerating 1 error; the read sees 2 zones ("z1", "") and tolerates 1
+unavailable zone. Acknowledgements {b, c} and the answering zone "z1" (= {a}) are DISJOINT: instances
+with the empty zone are exempt from the one-per-zone rule, so two acks can sit in one "zone". The property
+fails on such a ring; its quantifier excludes it ("every instance carrying a zone when zone-awareness is on"). -/
+theorem intersect_needs_zones_set :
+    get { rf := 3, zoneAware := true } nz3 (getTokens nz3) 5 opWrite 0 = .ok { instances := nz3, maxErrors := 1 } ∧
+    getAll { rf := 3, zoneAware := true } nz3 (getTokens nz3) opRead 0
+      = .ok { instances := nz3, maxErrors := 0, maxUnavailableZones := 1, zoneAware := true } ∧
+    WFRing nz3 ∧ writeOk (nz3.drop 1) { instances := nz3, maxErrors := 1 } ∧
+    readOkZones ["z1"] { instances := nz3, maxErrors := 0, maxUnavailableZones := 1, zoneAware := true } ∧
+    ¬ ∃ i, i ∈ nz3.drop 1 ∧ i.zone ∈ ["z1"] := by
+  refine ⟨by decide, by decide, by decide, ?_, ?_, by decide⟩
+  · exact ⟨by decide, by decide, by decide⟩
+  · exact ⟨by decide, by decide, by decide⟩
 
 /-- The ingredient of the zone argument, for every token circle: the instances a zone-aware lookup
 walks are registered instances and its non-extending members lie in pairwise distinct zones. -/
@@ -61,9 +109,9 @@ outcome assignment, completion order and cancellation point of both calls. -/
 `W`, instances numbered injectively by `aid`) and a ring-wide `DoUntilQuorum` read over `R` returns the
 results `rs`, then some instance both acknowledged the write of `key` and is among the instances whose
 results the read returned. -/
-theorem write_read_share_replica_flat (cfg : Cfg) (d : Desc) (toks toks' : List Nat) (key : Nat) (now : Int)
-    (W : RSet) (R : RSetAll) (hza : cfg.zoneAware = false)
-    (hW : get cfg d toks key opWrite now = .ok W) (hR : getAll cfg d toks' opRead now = .ok R)
+theorem write_read_share_replica_flat (cfg : Cfg) (d : Desc) (toks toks' : List Nat) (key : Nat) (now now' : Int)
+    (opW opR : Op) (W : RSet) (R : RSetAll) (hza : cfg.zoneAware = false)
+    (hW : get cfg d toks key opW now = .ok W) (hR : getAll cfg d toks' opR now' = .ok R)
     -- the write: any run of the DoBatch model that has signalled success
     {icount : Int} {ca : Option Nat} {gets : List C10.GetRes} {p : C10.Prep} {out : Nat → C10.Outcome}
     {wevs : List C10.Ev} {ws : C10.St}
@@ -79,14 +127,14 @@ theorem write_read_share_replica_flat (cfg : Cfg) (d : Desc) (toks toks' : List 
     ∃ x, x ∈ W.instances ∧ PfC10.Acked p ws i (aid x) ∧ x ∈ PfC11.answered R rs := by
   obtain ⟨A, hA, hack⟩ := PC10.batch_success_implies_writeOk hg hp hwr hd i W aid hinj hnd hi
   have hB := (PC11.quorum_success_implies_readOk hc hrr hm).1 hzm
-  obtain ⟨x, hxA, hxB⟩ := quorum_intersect_flat cfg d toks toks' key now W R A _ hza hW hR hA hB
+  obtain ⟨x, hxA, hxB⟩ := quorum_intersect_flat cfg d toks toks' key now now' opW opR W R A _ hza hW hR hA hB
   exact ⟨x, hA.2.1 x hxA, hack x hxA, hxB⟩
 
 /-- Zone-aware: under the same premises with a zone-aware read, some instance acknowledged the write of
 `key` and its result is among those the read returned (it lies in a zone that answered completely). -/
-theorem write_read_share_replica_zones (cfg : Cfg) (d : Desc) (toks toks' : List Nat) (key : Nat) (now : Int)
-    (W : RSet) (R : RSetAll) (hza : cfg.zoneAware = true) (hz : ∀ i ∈ d, i.zone ≠ "")
-    (hW : get cfg d toks key opWrite now = .ok W) (hR : getAll cfg d toks' opRead now = .ok R)
+theorem write_read_share_replica_zones (cfg : Cfg) (d : Desc) (toks toks' : List Nat) (key : Nat) (now now' : Int)
+    (opW opR : Op) (W : RSet) (R : RSetAll) (hza : cfg.zoneAware = true) (hz : ∀ i ∈ d, i.zone ≠ "") (hne : NonExtending opW)
+    (hW : get cfg d toks key opW now = .ok W) (hR : getAll cfg d toks' opR now' = .ok R)
     {icount : Int} {ca : Option Nat} {gets : List C10.GetRes} {p : C10.Prep} {out : Nat → C10.Outcome}
     {wevs : List C10.Ev} {ws : C10.St}
     (hg : PfC10.GoodGets gets) (hp : C10.prepare icount ca gets = .ok p)
@@ -100,7 +148,7 @@ theorem write_read_share_replica_zones (cfg : Cfg) (d : Desc) (toks toks' : List
     ∃ x, x ∈ W.instances ∧ PfC10.Acked p ws i (aid x) ∧ x ∈ PfC11.answered R rs := by
   obtain ⟨A, hA, hack⟩ := PC10.batch_success_implies_writeOk hg hp hwr hd i W aid hinj hnd hi
   obtain ⟨hZ, hall, _⟩ := (PC11.quorum_success_implies_readOk hc hrr hm).2 hzm
-  obtain ⟨x, hxA, hxR, hxZ⟩ := quorum_intersect_zones cfg d toks toks' key now W R A _ hza hz hW hR hA hZ
+  obtain ⟨x, hxA, hxR, hxZ⟩ := quorum_intersect_zones cfg d toks toks' key now now' opW opR hne W R A _ hza hz hW hR hA hZ
   exact ⟨x, hA.2.1 x hxA, hack x hxA, hall _ hxZ x hxR rfl⟩
 
 
@@ -146,9 +194,9 @@ The same two theorems with the distinctness premises discharged: `W.instances.No
 successful `Get` (`PC01.get_ok_nodup` = `PfC01.get_ok_facts`), `R.instances.Nodup` (a field of `PfC11.Corresponds`) follows from
 the distinct ids of a well-formed descriptor (`getAll_ok_facts`). -/
 
-theorem write_read_share_replica_flat_wf (cfg : Cfg) (d : Desc) (toks toks' : List Nat) (key : Nat) (now : Int)
-    (W : RSet) (R : RSetAll) (hwf : WFRing d) (hza : cfg.zoneAware = false)
-    (hW : get cfg d toks key opWrite now = .ok W) (hR : getAll cfg d toks' opRead now = .ok R)
+theorem write_read_share_replica_flat_wf (cfg : Cfg) (d : Desc) (toks toks' : List Nat) (key : Nat) (now now' : Int)
+    (opW opR : Op) (W : RSet) (R : RSetAll) (hwf : WFRing d) (hza : cfg.zoneAware = false)
+    (hW : get cfg d toks key opW now = .ok W) (hR : getAll cfg d toks' opR now' = .ok R)
     {icount : Int} {ca : Option Nat} {gets : List C10.GetRes} {p : C10.Prep} {out : Nat → C10.Outcome}
     {wevs : List C10.Ev} {ws : C10.St}
     (hg : PfC10.GoodGets gets) (hp : C10.prepare icount ca gets = .ok p)
@@ -163,13 +211,13 @@ theorem write_read_share_replica_flat_wf (cfg : Cfg) (d : Desc) (toks toks' : Li
     (hrr : C11.run c (C11.init c order pre) revs = some rst)
     (hzm : c.zoneMode = false) {rs : List Nat} (hm : rst.main = .retOk rs) :
     ∃ x, x ∈ W.instances ∧ PfC10.Acked p ws i (aid x) ∧ x ∈ PfC11.answered R rs :=
-  write_read_share_replica_flat cfg d toks toks' key now W R hza hW hR hg hp hwr hd i aid hinj
-    (PfC01.get_ok_facts cfg d toks key opWrite now W hW).2.1 hi
-    ⟨(getAll_ok_facts cfg d toks' opRead now R hR).2.1 hwf.1, hzinj, hzones, hme, hmu⟩ hrr hzm hm
+  write_read_share_replica_flat cfg d toks toks' key now now' opW opR W R hza hW hR hg hp hwr hd i aid hinj
+    (PfC01.get_ok_facts cfg d toks key opW now W hW).2.1 hi
+    ⟨(getAll_ok_facts cfg d toks' opR now' R hR).2.1 hwf.1, hzinj, hzones, hme, hmu⟩ hrr hzm hm
 
-theorem write_read_share_replica_zones_wf (cfg : Cfg) (d : Desc) (toks toks' : List Nat) (key : Nat) (now : Int)
-    (W : RSet) (R : RSetAll) (hwf : WFRing d) (hza : cfg.zoneAware = true) (hz : ∀ i ∈ d, i.zone ≠ "")
-    (hW : get cfg d toks key opWrite now = .ok W) (hR : getAll cfg d toks' opRead now = .ok R)
+theorem write_read_share_replica_zones_wf (cfg : Cfg) (d : Desc) (toks toks' : List Nat) (key : Nat) (now now' : Int)
+    (opW opR : Op) (W : RSet) (R : RSetAll) (hwf : WFRing d) (hza : cfg.zoneAware = true) (hz : ∀ i ∈ d, i.zone ≠ "") (hne : NonExtending opW)
+    (hW : get cfg d toks key opW now = .ok W) (hR : getAll cfg d toks' opR now' = .ok R)
     {icount : Int} {ca : Option Nat} {gets : List C10.GetRes} {p : C10.Prep} {out : Nat → C10.Outcome}
     {wevs : List C10.Ev} {ws : C10.St}
     (hg : PfC10.GoodGets gets) (hp : C10.prepare icount ca gets = .ok p)
@@ -184,9 +232,9 @@ theorem write_read_share_replica_zones_wf (cfg : Cfg) (d : Desc) (toks toks' : L
     (hrr : C11.run c (C11.init c order pre) revs = some rst)
     (hzm : c.zoneMode = true) {rs : List Nat} (hm : rst.main = .retOk rs) :
     ∃ x, x ∈ W.instances ∧ PfC10.Acked p ws i (aid x) ∧ x ∈ PfC11.answered R rs :=
-  write_read_share_replica_zones cfg d toks toks' key now W R hza hz hW hR hg hp hwr hd i aid hinj
-    (PfC01.get_ok_facts cfg d toks key opWrite now W hW).2.1 hi
-    ⟨(getAll_ok_facts cfg d toks' opRead now R hR).2.1 hwf.1, hzinj, hzones, hme, hmu⟩ hrr hzm hm
+  write_read_share_replica_zones cfg d toks toks' key now now' opW opR W R hza hz hne hW hR hg hp hwr hd i aid hinj
+    (PfC01.get_ok_facts cfg d toks key opW now W hW).2.1 hi
+    ⟨(getAll_ok_facts cfg d toks' opR now' R hR).2.1 hwf.1, hzinj, hzones, hme, hmu⟩ hrr hzm hm
 
 /-! ### The arithmetic is tight (regression witnesses, not part of the claim) -/
 
@@ -198,8 +246,8 @@ def za3 : Cfg := { rf := 3, zoneAware := true }
 /-- RF 3, three healthy instances: the write tolerates 1 error, the read 1. Had the read tolerated one
 more, the acknowledging set {a, b} and the answering set {c} would be disjoint. -/
 theorem intersect_needs_majority :
-    get flat3 r3 (sortedTokens r3) 5 opWrite 0 = .ok { instances := r3, maxErrors := 1 } ∧
-    getAll flat3 r3 (sortedTokens r3) opRead 0 = .ok { instances := r3, maxErrors := 1, maxUnavailableZones := 0, zoneAware := false } ∧
+    get flat3 r3 (getTokens r3.reverse) 5 opWrite 0 = .ok { instances := r3, maxErrors := 1 } ∧
+    getAll flat3 r3 (getTokens r3.reverse) opRead 0 = .ok { instances := r3, maxErrors := 1, maxUnavailableZones := 0, zoneAware := false } ∧
     writeOk (r3.take 2) { instances := r3, maxErrors := 1 } ∧
     readOkFlat (r3.drop 2) { instances := r3, maxErrors := 2, maxUnavailableZones := 0, zoneAware := false } ∧
     ¬ ∃ i, i ∈ r3.take 2 ∧ i ∈ r3.drop 2 := by
@@ -210,7 +258,7 @@ theorem intersect_needs_majority :
 /-- Zone-aware counterpart: three zones, RF 3 — the read may miss 1 zone; missing 2 zones ({z3} answers)
 would be disjoint from the acks {a, b}. -/
 theorem intersect_needs_majority_zones :
-    getAll za3 r3 (sortedTokens r3) opRead 0 = .ok { instances := r3, maxErrors := 0, maxUnavailableZones := 1, zoneAware := true } ∧
+    getAll za3 r3 (getTokens r3.reverse) opRead 0 = .ok { instances := r3, maxErrors := 0, maxUnavailableZones := 1, zoneAware := true } ∧
     readOkZones ["z3"] { instances := r3, maxErrors := 0, maxUnavailableZones := 2, zoneAware := true } ∧
     ¬ ∃ i, i ∈ r3.take 2 ∧ i.zone ∈ ["z3"] := by
   refine ⟨by decide, ?_, by decide⟩
@@ -278,7 +326,7 @@ example : ∃ ws rst x, C10.run (C10.initSt PC10.exPrep PC10.exOut) PC10.exSched
   obtain ⟨ws, hws, hret⟩ := eWrite
   obtain ⟨rst, hrst, hmain⟩ := eRead eCflat (Or.inl rfl)
   obtain ⟨x, h1, h2, h3⟩ := write_read_share_replica_flat_wf { rf := 3, zoneAware := false } e3 (sortedTokens e3)
-    (sortedTokens e3) 5 2 eW eRflat (by decide) rfl (by decide) (by decide) eGood
+    (sortedTokens e3) 5 2 2 opWrite opRead eW eRflat (by decide) rfl (by decide) (by decide) eGood
     (show C10.prepare 4 none PC10.exGets = .ok PC10.exPrep by decide) hws (Or.inl hret) 0 PC10.exAid (by decide) (by decide)
     (zid := eZid) (by decide) (by decide) rfl rfl hrst (by decide) hmain
   exact ⟨ws, rst, x, hws, hrst, h1, h2, h3⟩
@@ -290,9 +338,68 @@ example : ∃ ws rst x, C10.run (C10.initSt PC10.exPrep PC10.exOut) PC10.exSched
   obtain ⟨ws, hws, hret⟩ := eWrite
   obtain ⟨rst, hrst, hmain⟩ := eRead eCzone (Or.inr rfl)
   obtain ⟨x, h1, h2, h3⟩ := write_read_share_replica_zones_wf { rf := 3, zoneAware := true } e3 (sortedTokens e3)
-    (sortedTokens e3) 5 2 eW eRzone (by decide) rfl (by decide) (by decide) (by decide) eGood
+    (sortedTokens e3) 5 2 2 opWrite opRead eW eRzone (by decide) rfl (by decide) PfC02.nonExtending_builtin.1 (by decide) (by decide) eGood
     (show C10.prepare 4 none PC10.exGets = .ok PC10.exPrep by decide) hws (Or.inl hret) 0 PC10.exAid (by decide) (by decide)
     (zid := eZid) (by decide) (by decide) rfl rfl hrst (by decide) hmain
   exact ⟨ws, rst, x, hws, hrst, h1, h2, h3⟩
+
+/-! ### Second fully instantiated run: extended write set, a failing zone on the read side, two clocks,
+`MaxUnavailableZones = 0`
+
+Zone-aware, RF 3, four instances: `b` (zone z1) is JOINING. The write of key 5 at clock 3 walks a, b
+(extends the set), c, e and returns the healthy {a, c, e} with NO tolerated error. The read at clock 4 finds
+`b` unhealthy for `Read`, drops the whole zone z1 and returns {a, e} with `MaxUnavailableZones = 0`
+(all slack consumed). `DoBatch`: replicas 0 (a), 2 (c), 3 (e) all acknowledge. `DoUntilQuorum`: both
+instances of the read set answer. -/
+
+def x4 : Desc := [ { id := "a", ts := 0, tokens := [10], zone := "z0" }, { id := "b", ts := 1, tokens := [20], zone := "z1", state := .JOINING },
+                   { id := "c", ts := 2, tokens := [30], zone := "z1" }, { id := "e", ts := 3, tokens := [40], zone := "z2" } ]
+def xW : RSet := { instances := [x4[0], x4[2], x4[3]], maxErrors := 0 }
+def xR : RSetAll := { instances := [x4[0], x4[3]], maxErrors := 0, maxUnavailableZones := 0, zoneAware := true }
+def xGets : List C10.GetRes := [.ok [0, 2, 3] 0]
+def xPrep : C10.Prep := { items := [C10.mkItem [0, 2, 3] 0], calls := [(0, [0]), (2, [0]), (3, [0])], gets := 1 }
+def xSched : List C10.Ev :=
+  [.start 0, .start 1, .start 2, .ret 0, .tick 0, .tick 0, .tick 0, .ret 1, .tick 1, .tick 1, .tick 1,
+   .ret 2, .tick 2, .tick 2, .tick 2, .recvDone]
+def xC : C11.Cfg := { zones := [0, 2], maxErrors := 0, maxUnavail := 0, zoneAware := true, minimize := false,
+                      hedging := false, hasTerm := false, cancelAll := true }
+def xRevs : List C11.Ev := [.begin 0, .begin 1, .finish 0 .ok, .recv, .finish 1 .ok, .recv]
+
+-- the extended walked set, the two lookups at different clocks, through the loser-tree token circle
+example : (specWalked { rf := 3, zoneAware := true } opWrite x4 5).map (·.id) = ["a", "b", "c", "e"] := by decide
+example : get { rf := 3, zoneAware := true } x4 (getTokens x4) 5 opWrite 3 = .ok xW := by decide
+example : getAll { rf := 3, zoneAware := true } x4 (getTokens x4) opRead 4 = .ok xR := by decide
+
+example : ∃ ws rst x, C10.run (C10.initSt xPrep (fun _ => .ok)) xSched = some ws ∧
+    C11.run xC (C11.init xC [] false) xRevs = some rst ∧
+    x ∈ xW.instances ∧ PfC10.Acked xPrep ws 0 (PC10.exAid x) ∧ x ∈ PfC11.answered xR [0, 1] := by
+  have hw : ∃ ws, C10.run (C10.initSt xPrep (fun _ => .ok)) xSched = some ws ∧ ws.ret = some .done := by
+    have h : ((C10.run (C10.initSt xPrep (fun _ => .ok)) xSched).map fun s => s.ret) = some (some .done) := by decide
+    cases hr : C10.run (C10.initSt xPrep (fun _ => .ok)) xSched with
+    | none => rw [hr] at h; cases h
+    | some ws => rw [hr] at h; exact ⟨ws, rfl, by simpa using h⟩
+  have hr : ∃ rst, C11.run xC (C11.init xC [] false) xRevs = some rst ∧ rst.main = .retOk [0, 1] := by
+    have h : ((C11.run xC (C11.init xC [] false) xRevs).map fun s => s.main) = some (.retOk [0, 1]) := by decide +kernel
+    cases hr : C11.run xC (C11.init xC [] false) xRevs with
+    | none => rw [hr] at h; cases h
+    | some rst => rw [hr] at h; exact ⟨rst, rfl, by simpa using h⟩
+  obtain ⟨ws, hws, hret⟩ := hw
+  obtain ⟨rst, hrst, hmain⟩ := hr
+  have hg : PfC10.GoodGets xGets := goodGets_of_lookups xGets (by
+    intro g hg
+    simp only [xGets, List.mem_cons, List.mem_nil_iff, or_false] at hg
+    subst hg
+    exact Or.inr ⟨{ rf := 3, zoneAware := true }, x4, getTokens x4, 5, opWrite, 3, xW, PC10.exAid, by decide, by decide⟩)
+  obtain ⟨x, h1, h2, h3⟩ := write_read_share_replica_zones_wf { rf := 3, zoneAware := true } x4 (getTokens x4)
+    (getTokens x4) 5 3 4 opWrite opRead xW xR (by decide) rfl (by decide) PfC02.nonExtending_builtin.1 (by decide) (by decide) hg
+    (show C10.prepare 4 none xGets = .ok xPrep by decide) hws (Or.inl hret) 0 PC10.exAid (by decide) (by decide)
+    (zid := fun z => if z = "z0" then 0 else 2) (by decide) (by decide) rfl rfl hrst (by decide) hmain
+  exact ⟨ws, rst, x, hws, hrst, h1, h2, h3⟩
+
+-- the same read set run by `ReplicationSet.Do` (plain tracker, MaxErrors 0): B must be all of it
+example : readOkFlat xR.instances xR := ⟨by decide, by decide, by decide⟩
+-- WriteNoExtend is covered by the same theorems
+example : get { rf := 3, zoneAware := true } x4 (getTokens x4) 5 opWriteNoExtend 3
+    = .ok { instances := [x4[0], x4[3]], maxErrors := 0 } := by decide
 
 end PC02
